@@ -99,10 +99,15 @@ class Runner:
                 t = run.cur_tid()
                 cur = sys.exc_info()[1]
                 run.emit("acq_call", t, run.eid_of(t, cur) if cur is not None else None)
+                stt = run.state.get(t)
+                if cur is not None and stt is not None and stt["inwait"]:
+                    stt["exc_in_wait"] = True      # `await fut` raised: wait() must end by raising
                 try:
                     r = await super().acquire()
                 except BaseException as e:  # noqa: BLE001
                     run.emit("acq_exc", t, run.eid_of(t, e))
+                    if stt is not None and stt["inwait"]:
+                        stt["exc_in_wait"] = True  # delivered while re-acquiring: wait() must end by raising
                     raise
                 if self.ghost_owner is not None:
                     run.fail("mutual-exclusion", f"task {t} acquired while {self.ghost_owner} owns")
@@ -169,6 +174,15 @@ class Runner:
         else:
             self.tags.add("notification-passed-on")
 
+    def swallow_check(self, t):
+        """an exception delivered to the waiter and raised inside wait() (at `await fut` or in the re-acquire
+        loop) must leave wait(): a normal return has swallowed it"""
+        if self.state[t].get("exc_in_wait"):
+            self.tags.add("exception-raised-inside-wait")
+            self.fail("exception-swallowed",
+                      f"consumer {t}: an exception delivered to it was raised inside wait(), yet wait() returned "
+                      f"normally")
+
     def identity_check(self, t, exc):
         if not isinstance(exc, asyncio.CancelledError):
             self.fail("foreign-exception", f"consumer {t}: wait() raised {type(exc).__name__}")
@@ -191,6 +205,7 @@ class Runner:
         self.emit("wait_call", t, self.my_pri(), self.arrival)
         self.arrival += 1
         st["inwait"] = True
+        st["exc_in_wait"] = False
 
     async def consumer(self, t):
         st = self.state[t]
@@ -205,6 +220,7 @@ class Runner:
                                 # a wait() just returned normally
                                 st["inwait"] = False
                                 self.emit("wait_ret", t)
+                                self.swallow_check(t)
                                 self.owner_check(t, "wait_for predicate after wait()")
                             ok = self.tokens > 0
                             self.emit("pred", t, ok)
@@ -243,6 +259,7 @@ class Runner:
                             else:
                                 st["inwait"] = False
                                 self.emit("wait_ret", t)
+                                self.swallow_check(t)
                                 self.owner_check(t, "wait return")
                     self.tokens -= 1
                     self.emit("took", t)
@@ -333,7 +350,7 @@ class Runner:
     # ------------------------------------------------------------------ environment
     def new_exc(self, t, cls):
         I = self.I
-        classes = {"I": I.InterruptException, "T": I.TimeoutInterrupt, "S": _Sub(I)}
+        classes = {"I": I.InterruptException, "T": I.TimeoutInterrupt, "S": _Sub(I), "F": _Falsy(I)}
         e = classes[cls]()
         k = self.next_exc
         self.next_exc += 1
@@ -566,7 +583,7 @@ class Runner:
         loop = self.loop
         for t, c in enumerate(self.cons):
             self.state[t] = dict(phase="idle", fut=None, pri=None, arr=None, about=None, inwait=False,
-                                 fin=False, wf=c.get("wf", False), retry=c.get("retry", False), rounds=c.get("rounds", 1), notified=False, thrown=False)
+                                 fin=False, exc_in_wait=False, wf=c.get("wf", False), retry=c.get("retry", False), rounds=c.get("rounds", 1), notified=False, thrown=False)
             co = self.consumer(t)
             self.keep.append(co)
             if c["py"]:
@@ -659,6 +676,19 @@ class Runner:
         for m in self.loop_errors:
             self.bad.append(("loop-exception-handler", m))
         return self
+
+
+_FALSY = {}
+
+
+def _Falsy(I):
+    """an InterruptException subclass whose instances are falsy (a container-like interrupt with no payload)"""
+    if I not in _FALSY:
+        class EmptyBatch(I.InterruptException):
+            def __len__(self):
+                return 0
+        _FALSY[I] = EmptyBatch
+    return _FALSY[I]
 
 
 def _Sub(I):
